@@ -501,7 +501,7 @@ func runC06(ctx *core.Ctx) {
 	streamImport(ctx)
 	streamApplyExhaustive(ctx)
 	ctx.Res.Exhaustive = true
-	for i := 0; i < ctx.Pick(2500, 60000); i++ {
+	for i := 0; i < ctx.Pick(2000, 60000); i++ {
 		ctx.Add("c06.applyInclude", randomApply(ctx, 1+ctx.Rng.Intn(3)))
 	}
 	streamApplyMalformed(ctx)
@@ -744,12 +744,37 @@ func newGen(ctx *core.Ctx, clean bool) *gen {
 	return &gen{r: ctx.Rng, s: c06lib.NewScen(), names: map[string]int{}, tags: map[string]bool{}, clean: clean}
 }
 
+// diffPair returns two definitions of one resource that differ whatever the environment and the directories are.
+func diffPair(r *rand.Rand, kind string) (any, any) {
+	switch kind {
+	case "services":
+		a := cleanDef(kind, c06lib.Service(r, "r")).(map[string]any)
+		a["image"] = "one"
+		return a, map[string]any{"image": "two"}
+	case "volumes", "networks":
+		if r.Intn(2) == 0 {
+			return map[string]any{"name": "one"}, map[string]any{"name": "two"}
+		}
+		return map[string]any{"labels": map[string]any{"which": c06lib.Tmpl(r, "one")}}, map[string]any{"driver": "local"}
+	case "secrets":
+		if r.Intn(2) == 0 {
+			return map[string]any{"environment": "ONE"}, map[string]any{"environment": "TWO"}
+		}
+		return map[string]any{"file": "./one"}, map[string]any{"file": "./two"}
+	default:
+		if r.Intn(2) == 0 {
+			return map[string]any{"content": "one"}, map[string]any{"content": "two"}
+		}
+		return map[string]any{"file": "./one"}, map[string]any{"environment": "TWO"}
+	}
+}
+
 func svc(image string) map[string]any { return map[string]any{"image": image} }
 
 func streamPaste(ctx *core.Ctx) {
 	// 1. partitions of a model into a main file and included files (nesting ≤ 3, sub-directories, project_directory,
 	//    env_file, .env, short/long syntax, override files, diamonds)
-	for i := 0; i < ctx.Pick(1500, 40000); i++ {
+	for i := 0; i < ctx.Pick(1200, 40000); i++ {
 		g := newGen(ctx, true)
 		depth := 1 + ctx.Rng.Intn(3)
 		main, projDir := "compose.yaml", ""
@@ -814,17 +839,7 @@ func streamPaste(ctx *core.Ctx) {
 	for i := 0; i < ctx.Pick(60, 600); i++ {
 		for _, kind := range c06lib.Kinds5 {
 			g := newGen(ctx, true)
-			d1 := cleanDef(kind, c06lib.Resource(ctx.Rng, kind, "r"))
-			var d2 any
-			for tries := 0; ; tries++ {
-				d2 = cleanDef(kind, c06lib.Resource(ctx.Rng, kind, "r"))
-				if fmt.Sprint(d1) != fmt.Sprint(d2) || tries > 20 {
-					break
-				}
-			}
-			if fmt.Sprint(d1) == fmt.Sprint(d2) {
-				continue
-			}
+			d1, d2 := diffPair(ctx.Rng, kind)
 			switch ctx.Rng.Intn(3) {
 			case 0: // two included files define the resource differently
 				da := map[string]any{"services": map[string]any{"sa": svc("x")}}
@@ -912,6 +927,10 @@ func streamPaste(ctx *core.Ctx) {
 						class += "-via-override"
 					}
 					ctx.Add("c06.paste", pasteArgs(g, files[0], nil, nil, "error", class))
+					// the same cycle entered from a file that is not part of it
+					g.s.AddYAML("entry/compose.yaml", 0, map[string]any{"include": []any{c06lib.RelTo("entry", files[n-1])}, "services": map[string]any{"e": svc("x")}})
+					ctx.Count(fmt.Sprintf("paste:cycle-%d-entered-from-outside", n))
+					ctx.Add("c06.paste", pasteArgs(g, "entry/compose.yaml", nil, nil, "error", class+"-lasso"))
 				}
 			}
 		}
